@@ -38,11 +38,12 @@ func wantInit(path string) bool {
 	return false
 }
 
-func buildSnapshot(P *Program, verbose bool) *Snapshot {
+func buildSnapshot(P *Program, verbose bool, intMode bool) *Snapshot {
 	t0 := time.Now()
 	ts := NewTermStore()
 	ex := NewExec(P, ts, nil)
 	ex.initMode = true
+	ex.intMode = intMode
 	ex.maxSteps = 200_000_000
 	ex.harness = "<init>"
 	// topological order over imports
